@@ -10,8 +10,10 @@
       decoder  dec start ipd ticks
         fs   := float64(ticks) / (float64(ipd) * 49710.2696...)
         sub  := 1e9 * (fs - Floor(fs));  if sub >= 1e9 { sub -= 1e9; fs++ }
-        sec  := start + uint64(Round(fs * 1e8) / 1e8)                        (the F1 defect lives here)
-        nsec := uint32(sub + 0.5)
+        sec  := start + uint64(Floor(fs))
+        nsec := uint32(sub + 0.5);  if nsec >= 1e9 { nsec -= 1e9; sec++ }
+      (this is the code after the F1 fix: before it the seconds were Round(fs * 1e8) / 1e8, which carried
+      into the next second while the nanoseconds stayed at 99999999x)
 
     float -> integer conversions are truncations; they are only meaningful in range, which holds for
     every offset inside an interval (ticks < 2^32). *)
@@ -31,7 +33,6 @@ Definition f64_ge (x y : f64) : bool := Bleb y x.
 Definition c_enc_tpi : f64 := f64_cst enc_tpi_m enc_tpi_e.
 Definition c_dec_tpi : f64 := f64_cst dec_tpi_m dec_tpi_e.
 Definition c_1e9 : f64 := f64_cst dec_nanosecond_m dec_nanosecond_e.
-Definition c_1e8 : f64 := f64_cst dec_subnanosecond_m dec_subnanosecond_e.
 Definition c_half : f64 := f64_cst dec_round_m dec_round_e.
 Definition c_one : f64 := f64_of_Z 1.
 
@@ -56,9 +57,9 @@ Definition dec (start ipd ticks : Z) : Z * Z :=
   let fs := f64_div (f64_of_Z ticks) (f64_mul (f64_of_Z ipd) c_dec_tpi) in
   let sub := f64_mul c_1e9 (f64_sub fs (f64_floor fs)) in
   let '(sub, fs) := (if f64_ge sub c_1e9 then (f64_sub sub c_1e9, f64_add fs c_one) else (sub, fs)) in
-  let sec := wrap U64 (start + wrap U64 (f64_trunc (f64_div (f64_round (f64_mul fs c_1e8)) c_1e8))) in
+  let sec := wrap U64 (start + wrap U64 (f64_trunc (f64_floor fs))) in
   let nsec := wrap U32 (wrap I64 (f64_trunc (f64_add sub c_half))) in
-  (sec, nsec).
+  if 1000000000 <=? nsec then (wrap U64 (sec + 1), wrap U32 (nsec - 1000000000)) else (sec, nsec).
 
 (** decoded offset in nanoseconds relative to the interval start *)
 Definition dec_offset (ipd ticks : Z) : Z := let '(s, n) := dec 0 ipd ticks in s * 1000000000 + n.
@@ -70,9 +71,9 @@ Definition step_ns (ipd : Z) : Z := (interval_ns ipd + 4294967295) / 4294967296.
 (** intervalsPerDay of the on-disk timeframes *)
 Definition ipds : list Z := [86400; 8640; 2880; 1440; 288; 96; 48; 24; 6; 12; 1].
 
-(** guard of the bound theorem = complement of finding class F1: the tick's exact position
-    ticks * interval / 2^32 (the constant 49710.2696296... is 2^32 / 86400, not MaxUint32 / 86400 as
-    the source comment says), in nanoseconds, has a sub-second part below 0.99999999 s, i.e. the
-    decoder's Round(fs * 1e8) / 1e8 cannot carry into the next second *)
+(** exact position of a tick in nanoseconds, floor(ticks * interval / 2^32) (the constant
+    49710.2696296... is 2^32 / 86400, not MaxUint32 / 86400 as the source comment says) *)
 Definition tick_pos_ns (ipd ticks : Z) : Z := ticks * interval_ns ipd / 4294967296.
+(** the former finding class F1 (decoded fraction >= 0.99999999 s), kept as a TAG for the generator's
+    regression inputs; since the fix it guards nothing *)
 Definition guard_C10 (ipd d : Z) : bool := tick_pos_ns ipd (enc ipd d) mod 1000000000 <? 999999990.
